@@ -61,7 +61,7 @@ Lemma gen_coord_FilterProposals : forall t i s,
   let r := cget t (it_w i) (s_cache s) in
   g_coord_FilterProposals_body (opt_ok r) (e_pend (getv r)) (Z.of_N (it_ut i)) (Z.of_N UT_LOG)
                                (Z.of_N (e_tt (getv r))) (Z.of_N PERFORM)
-  = if keep_proposal t i s then ([1], Fall) else ([], Cont).
+  = if keep_proposal t i s then ([1], Fall) else ([], Fall).
 Proof.
   intros t i s r. unfold keep_proposal, fp_of, g_coord_FilterProposals_body, UT_LOG, PERFORM. fold r.
   destruct r as [v|]; cbn [opt_ok getv e_zero e_pend e_tt]; [destruct (e_pend v)|];
@@ -80,7 +80,7 @@ Proof. intros [|]; split; reflexivity. Qed.
 Definition run_event (c : ccfg) (t : Z) (s : state) (e : event) (v : entry) (d : list Z * leaf) : option state :=
   let s1 := mkS (s_cache s) (cset vid_eqb (c_window c) t (ev_id e) true (s_vis s)) in
   match d with
-  | ([], Cont) | ([1], Cont) => Some s
+  | ([], Fall) | ([1], Fall) => Some s
   | ([2; 3; 5], Fall) => Some (put c t (ev_w e) (mkE (e_check v) false (ev_type e) (ev_tb e)) s1)
   | ([2; 4; 5], Fall) => Some (put c t (ev_w e) (mkE (ev_check e) false (ev_type e) (ev_tb e)) s1)
   | ([2], Fall) => Some s1
